@@ -241,7 +241,7 @@ def run_equivalents(want, repo):
             continue
         scratch = tempfile.mkdtemp(prefix='mutant-%s-' % eid, dir='/tmp')
         try:
-            shutil.copytree(os.path.join(repo, 'include'), os.path.join(scratch, 'include'))
+            copy_headers(repo, scratch)
             bad = None
             for rel, old, new in edits:
                 path = os.path.join(scratch, rel)
@@ -267,6 +267,16 @@ def run_equivalents(want, repo):
     return results
 
 
+
+def copy_headers(repo, scratch):
+    """The committed headers (git archive HEAD), so that a seeded change being tried in /repo's working tree at the same
+    moment cannot leak into the copy; the working tree itself when /repo is not a git checkout."""
+    p = subprocess.run('git -C %s archive HEAD include | tar -x -C %s' % (repo, scratch), shell=True, stdout=subprocess.PIPE, stderr=subprocess.PIPE)
+    if p.returncode != 0 or not os.path.isdir(os.path.join(scratch, 'include')):
+        shutil.rmtree(os.path.join(scratch, 'include'), ignore_errors=True)
+        shutil.copytree(os.path.join(repo, 'include'), os.path.join(scratch, 'include'))
+
+
 def main():
     want = set(sys.argv[1:])
     repo = os.environ.get('VERIF_REPO_SRC', '/repo')
@@ -276,7 +286,7 @@ def main():
             continue
         scratch = tempfile.mkdtemp(prefix='mutant-%s-' % mid, dir='/tmp')
         try:
-            shutil.copytree(os.path.join(repo, 'include'), os.path.join(scratch, 'include'))
+            copy_headers(repo, scratch)
             path = os.path.join(scratch, rel)
             src = open(path).read()
             if src.count(old) != 1:
